@@ -14,6 +14,7 @@ import (
 	"strings"
 
 	"github.com/robfig/soy/data"
+	"github.com/robfig/soy/soyhtml"
 	"soyverif/internal/hx"
 )
 
@@ -309,6 +310,83 @@ func c06JsonPlans() []c06Plan {
 		dsx := valueSexp(data.Map{"v": v}, newIDTable())
 		for _, n := range names {
 			plans = append(plans, c06Plan{c: c06Render{Kind: "render", Files: files, Template: n, Data: dsx, Tag: "json-values"}, nontriv: true, hasJSON: true})
+		}
+	}
+	return plans
+}
+
+// c06RangeGrid: range(i, limit, step) on the implementation for a grid of starts, limits and steps around
+// both ends of int64 (negative starts with limits near MaxInt64 and steps whose additions overflow), keeping
+// only triples whose exact result is short.  A loop that goes on after the index wrapped around shows up as
+// a hang or as memory exhaustion in the worker.
+func c06RangeGrid(add func(tag, text string)) {
+	vals := []int64{-9223372036854775807, -9223372036854775806, -4611686018427387904, -5, -1, 0, 1, 3, 4611686018427387904, 9223372036854775800, 9223372036854775806, 9223372036854775807}
+	steps := []int64{1, 3, 4611686018427387904, 4611686018427387905, 9223372036854775800, 9223372036854775806, 9223372036854775807}
+	for _, i := range vals {
+		for _, l := range vals {
+			for _, st := range steps {
+				if l > i && (float64(l)-float64(i))/float64(st) > 40 {
+					continue
+				}
+				add("range-grid", "range("+strconv.FormatInt(i, 10)+", "+strconv.FormatInt(l, 10)+", "+strconv.FormatInt(st, 10)+")")
+			}
+		}
+	}
+}
+
+// ---------------------------------------------------------------------------
+// functions and directives supplied by the user (entries added to soyhtml.Funcs / soyhtml.PrintDirectives):
+// what the recover wrappers of evalFunc / evalPrint make of code that returns, returns nil or panics.
+// The same behaviours are the user tables of the model op c06_render_user (ocaml/ops_safety.ml).
+
+func c06InstallUserCode() {
+	soyhtml.Funcs["userPanic"] = soyhtml.Func{Apply: func(a []data.Value) data.Value { panic("boom") }, ValidArgLengths: []int{0, 1}}
+	soyhtml.Funcs["userRuntime"] = soyhtml.Func{Apply: func(a []data.Value) data.Value {
+		var m map[string]int
+		m["x"] = 1 // assignment to entry in nil map: a run-time error inside the user's code
+		return nil
+	}, ValidArgLengths: []int{0}}
+	soyhtml.Funcs["userNil"] = soyhtml.Func{Apply: func(a []data.Value) data.Value { return nil }, ValidArgLengths: []int{0}}
+	soyhtml.Funcs["userId"] = soyhtml.Func{Apply: func(a []data.Value) data.Value { return a[0] }, ValidArgLengths: []int{1}}
+	soyhtml.Funcs["userLen"] = soyhtml.Func{Apply: func(a []data.Value) data.Value { return data.Int(len(a[0].(data.List))) }, ValidArgLengths: []int{1}}
+	soyhtml.PrintDirectives["udPanic"] = soyhtml.PrintDirective{Apply: func(v data.Value, a []data.Value) data.Value { panic(fmt.Errorf("boom")) }, ValidArgLengths: []int{0}, CancelAutoescape: true}
+	soyhtml.PrintDirectives["udNil"] = soyhtml.PrintDirective{Apply: func(v data.Value, a []data.Value) data.Value { return nil }, ValidArgLengths: []int{0}}
+	soyhtml.PrintDirectives["udId"] = soyhtml.PrintDirective{Apply: func(v data.Value, a []data.Value) data.Value { return v }, ValidArgLengths: []int{0}}
+	soyhtml.PrintDirectives["udCount"] = soyhtml.PrintDirective{Apply: func(v data.Value, a []data.Value) data.Value { return data.Int(len(v.(data.List))) }, ValidArgLengths: []int{0}, CancelAutoescape: true}
+}
+
+func c06UserPlans() []c06Plan {
+	bodies := []string{
+		"{userPanic()}", "{userPanic($v)}", "{userRuntime()}", "{userNil()}", "{userNil() ?: 'd'}", "{userId($v)}", "{userLen($v)}",
+		"{userId()}", "{userId($v, 1)}", "{userPanic(userNil())}", "{if userNil()}a{else}b{/if}", "{userId($v) + 1}", "{userId(userId($v))}",
+		"a{userId($v)|udCount}b", "{$v|udPanic}", "{$v|udNil}", "{$v|udNil|json}", "{$v|udNil|noAutoescape}", "{$v|udNil|udId}", "{$v|udNil|udId|json}",
+		"{$v|udNil|escapeHtml}", "{$v|udNil|escapeJsString}", "{$v|udNil|truncate:3}", "{$v|udNil|udCount}", "{$v|udId}", "{$v|udId|json}", "{$v|udCount}",
+		"{$v|udCount|json}", "{$v|json|udCount}", "{$v|udId:1}", "{$v|noAutoescape|udCount}", "{$v|truncate:100|udCount}", "{$v|truncate:1|udCount}",
+		"{foreach $x in userId($v)}[{$x}]{ifempty}none{/foreach}", "{let $w: userId($v) /}{$w|udId}", "x{userPanic()}y{$v}", "{userLen(userId($v))|udId}",
+	}
+	var sb strings.Builder
+	sb.WriteString("{namespace uc}\n")
+	var names []string
+	for j, body := range bodies {
+		doc := "\n/**\n */\n"
+		if c06UsesVar(body, "v") {
+			doc = "\n/**\n * @param? v\n */\n"
+		}
+		sb.WriteString(doc + "{template .t" + strconv.Itoa(j) + "}\n" + body + "\n{/template}\n")
+		names = append(names, "uc.t"+strconv.Itoa(j))
+	}
+	files := []srcFile{{Name: "uc.soy", Text: sb.String()}}
+	vals := []data.Value{data.Undefined{}, data.Null{}, data.Int(3), data.String("a<b"), data.List{data.Int(1), data.Int(2)}, data.List{}, data.List(nil),
+		data.Map{"k": data.Int(1)}, data.Float(math.NaN()), data.List{data.Undefined{}}, data.Bool(false)}
+	var plans []c06Plan
+	for _, v := range vals {
+		m := data.Map{}
+		if _, undef := v.(data.Undefined); !undef {
+			m["v"] = v
+		}
+		dsx := valueSexp(m, newIDTable())
+		for _, n := range names {
+			plans = append(plans, c06Plan{c: c06Render{Kind: "render", Files: files, Template: n, Data: dsx, Tag: "user-code"}, nontriv: true, hasJSON: true, user: true})
 		}
 	}
 	return plans
